@@ -17,7 +17,9 @@ Model: `RegionData.clauses` (= `create_data_movement_deep_copy_refs` +
 namespace C13
 open MiniF RegionData
 
-theorem mem_arrays {s : Stmt} {x : Nat} :
+variable {fuel : Nat}
+
+theorem mem_arrays {s : RStmt} {x : Nat} :
     x ∈ arrays s ↔ isArr (sacc s) x = true := by
   simp only [arrays, arraysE, List.mem_filter, mem_varsOf]
   constructor
@@ -26,20 +28,20 @@ theorem mem_arrays {s : Stmt} {x : Nat} :
     obtain ⟨e, he, hv, _⟩ := isArr_iff.mp h
     exact ⟨⟨e, he, hv⟩, h⟩
 
-theorem mem_cin {s : Stmt} {x : Nat} :
+theorem mem_cin {s : RStmt} {x : Nat} :
     x ∈ (clauses s).cin ↔ x ∈ arrays s ∧ clauseOf (sacc s) x = .copyin := by
   simp [clauses, clausesE, arrays, List.mem_filter]
 
-theorem mem_cout {s : Stmt} {x : Nat} :
+theorem mem_cout {s : RStmt} {x : Nat} :
     x ∈ (clauses s).cout ↔ x ∈ arrays s ∧ clauseOf (sacc s) x = .copyout := by
   simp [clauses, clausesE, arrays, List.mem_filter]
 
-theorem mem_cpy {s : Stmt} {x : Nat} :
+theorem mem_cpy {s : RStmt} {x : Nat} :
     x ∈ (clauses s).cpy ↔ x ∈ arrays s ∧ clauseOf (sacc s) x = .copy := by
   simp [clauses, clausesE, arrays, List.mem_filter]
 
 /-- every touched array is in exactly one clause -/
-theorem arr_partition {s : Stmt} {x : Nat} (h : x ∈ arrays s) :
+theorem arr_partition {s : RStmt} {x : Nat} (h : x ∈ arrays s) :
     x ∈ (clauses s).cin ∨ x ∈ (clauses s).cout ∨ x ∈ (clauses s).cpy := by
   rw [mem_cin, mem_cout, mem_cpy]
   cases hc : clauseOf (sacc s) x
@@ -47,7 +49,7 @@ theorem arr_partition {s : Stmt} {x : Nat} (h : x ∈ arrays s) :
   · exact Or.inr (Or.inl ⟨h, rfl⟩)
   · exact Or.inr (Or.inr ⟨h, rfl⟩)
 
-theorem copyin_not_written {s : Stmt} {x : Nat} (h : clauseOf (sacc s) x = .copyin) :
+theorem copyin_not_written {s : RStmt} {x : Nat} (h : clauseOf (sacc s) x = .copyin) :
     isWritten (sacc s) x = false := by
   unfold clauseOf at h
   split at h
@@ -56,7 +58,7 @@ theorem copyin_not_written {s : Stmt} {x : Nat} (h : clauseOf (sacc s) x = .copy
     · rename_i hw; simpa using hw
   · exact absurd h (by decide)
 
-theorem copyout_read_first {s : Stmt} {x : Nat} (h : clauseOf (sacc s) x = .copyout)
+theorem copyout_read_first {s : RStmt} {x : Nat} (h : clauseOf (sacc s) x = .copyout)
     (hr : isRead (sacc s) x = true) : writtenFirst (sacc s) x = true := by
   unfold clauseOf at h
   rw [if_pos hr] at h
@@ -66,10 +68,10 @@ theorem copyout_read_first {s : Stmt} {x : Nat} (h : clauseOf (sacc s) x = .copy
     · exact absurd h (by decide)
   · exact absurd h (by decide)
 
-theorem cin_frame {s : Stmt} {l : Loc} (h : l.1 ∈ (clauses s).cin) (σ : Store) :
-    (exec s σ) l = σ l := by
+theorem cin_frame {s : RStmt} {l : Loc} (h : l.1 ∈ (clauses s).cin) (σ : Store) :
+    (rexec fuel s σ) l = σ l := by
   obtain ⟨x, i, j⟩ := l
-  apply exec_frame
+  apply rexec_frame
   intro hw
   have := copyin_not_written (mem_cin.mp h).2
   rw [wvars_written hw] at this
@@ -80,24 +82,24 @@ theorem cin_frame {s : Stmt} {l : Loc} (h : l.1 ∈ (clauses s).cin) (σ : Store
 /-- the full claim: for every content `γ` of fresh device memory, every touched host array
 holds the same values after the data region as after executing the region on the host -/
 def C13_statement : Prop :=
-  ∀ (s : Stmt) (σ γ : Store), ∀ x ∈ arrays s, ∀ i j,
-    (execACC (clauses s) s σ γ) (x, i, j) = (exec s σ) (x, i, j)
+  ∀ (fuel : Nat) (s : RStmt) (σ γ : Store), ∀ x ∈ arrays s, ∀ i j,
+    (execACC fuel (clauses s) s σ γ) (x, i, j) = (rexec fuel s σ) (x, i, j)
 
 /-- structure of the generated clauses: only arrays; `copyin` = read-only; an array goes to
 `copyout` iff it is never read or its first textual access is a write; otherwise `copy` -/
-theorem C13_clauses_arrays (s : Stmt) (x : Nat)
+theorem C13_clauses_arrays (s : RStmt) (x : Nat)
     (h : x ∈ (clauses s).cin ∨ x ∈ (clauses s).cout ∨ x ∈ (clauses s).cpy) :
     isArr (sacc s) x = true := by
   rw [mem_cin, mem_cout, mem_cpy] at h
   rcases h with h | h | h <;> exact mem_arrays.mp h.1
 
-theorem C13_clauses_disjoint (s : Stmt) (x : Nat) :
+theorem C13_clauses_disjoint (s : RStmt) (x : Nat) :
     ¬ (x ∈ (clauses s).cin ∧ x ∈ (clauses s).cout) ∧ ¬ (x ∈ (clauses s).cin ∧ x ∈ (clauses s).cpy)
     ∧ ¬ (x ∈ (clauses s).cout ∧ x ∈ (clauses s).cpy) := by
   rw [mem_cin, mem_cout, mem_cpy]
   refine ⟨?_, ?_, ?_⟩ <;> (rintro ⟨⟨_, h1⟩, ⟨_, h2⟩⟩; rw [h1] at h2; exact absurd h2 (by decide))
 
-theorem C13_copyout_char (s : Stmt) (x : Nat) :
+theorem C13_copyout_char (s : RStmt) (x : Nat) :
     x ∈ (clauses s).cout ↔
       isArr (sacc s) x = true ∧ (isRead (sacc s) x = false ∨ writtenFirst (sacc s) x = true) := by
   rw [mem_cout, mem_arrays]
@@ -126,8 +128,8 @@ theorem C13_copyout_char (s : Stmt) (x : Nat) :
 
 /-- **data movement is sufficient, partial**: if no touched array is put in `copyout`, the data
 region leaves the host exactly as host execution does — whatever the device memory held -/
-theorem C13_partial (s : Stmt) (h : FullyWrittenOrRead s) (σ γ : Store) :
-    execACC (clauses s) s σ γ = exec s σ := by
+theorem C13_partial (s : RStmt) (h : FullyWrittenOrRead s) (σ γ : Store) :
+    execACC fuel (clauses s) s σ γ = rexec fuel s σ := by
   unfold FullyWrittenOrRead at h
   have hpart : ∀ x, x ∈ arrays s → x ∈ (clauses s).cin ∨ x ∈ (clauses s).cpy := by
     intro x hx
@@ -165,19 +167,19 @@ theorem C13_partial (s : Stmt) (h : FullyWrittenOrRead s) (σ γ : Store) :
 
 /-- in particular the host arrays agree (the form of `C13_statement`) and the result does
 not depend on the undefined device contents: no poison is consumed or copied back -/
-theorem C13_host_arrays_partial (s : Stmt) (h : FullyWrittenOrRead s) (σ γ : Store) :
-    ∀ x ∈ arrays s, ∀ i j, (execACC (clauses s) s σ γ) (x, i, j) = (exec s σ) (x, i, j) := by
+theorem C13_host_arrays_partial (s : RStmt) (h : FullyWrittenOrRead s) (σ γ : Store) :
+    ∀ x ∈ arrays s, ∀ i j, (execACC fuel (clauses s) s σ γ) (x, i, j) = (rexec fuel s σ) (x, i, j) := by
   intro x _ i j; rw [C13_partial s h]
 
-theorem C13_no_poison_partial (s : Stmt) (h : FullyWrittenOrRead s) (σ γ γ' : Store) :
-    execACC (clauses s) s σ γ = execACC (clauses s) s σ γ' := by
+theorem C13_no_poison_partial (s : RStmt) (h : FullyWrittenOrRead s) (σ γ γ' : Store) :
+    execACC fuel (clauses s) s σ γ = execACC fuel (clauses s) s σ γ' := by
   rw [C13_partial s h, C13_partial s h]
 
 /-- the same through the transformation: whenever `ACCDataTrans` accepts -/
 theorem C13_trans_partial (hasEnter : Bool) (items : List Item) (c : Clauses)
     (hacc : accDataTrans hasEnter items = some c)
-    (h : FullyWrittenOrRead (seqs (itemsStmt items))) (σ γ : Store) :
-    execACC c (seqs (itemsStmt items)) σ γ = exec (seqs (itemsStmt items)) σ := by
+    (h : FullyWrittenOrRead (rseqs (itemsStmt items))) (σ γ : Store) :
+    execACC fuel c (rseqs (itemsStmt items)) σ γ = rexec fuel (rseqs (itemsStmt items)) σ := by
   unfold accDataTrans at hacc
   split at hacc
   · exact absurd hacc (by simp)
@@ -205,9 +207,9 @@ theorem C13_refusals (hasEnter : Bool) (items : List Item) :
 /-- **exact damage, partial**: if the `copyout` arrays are at least never read in the region,
 every location ends as on the host, except that an element of a `copyout` array which the
 region leaves untouched receives the undefined device value -/
-theorem C13_deviation_partial (s : Stmt) (h : CopyoutNotRead s) (σ γ : Store) (l : Loc) :
-    (execACC (clauses s) s σ γ) l = (exec s σ) l ∨
-      (l.1 ∈ (clauses s).cout ∧ (execACC (clauses s) s σ γ) l = γ l ∧ (exec s σ) l = σ l) := by
+theorem C13_deviation_partial (s : RStmt) (h : CopyoutNotRead s) (σ γ : Store) (l : Loc) :
+    (execACC fuel (clauses s) s σ γ) l = (rexec fuel s σ) l ∨
+      (l.1 ∈ (clauses s).cout ∧ (execACC fuel (clauses s) s σ γ) l = γ l ∧ (rexec fuel s σ) l = σ l) := by
   unfold CopyoutNotRead copyoutNotRead at h
   simp only [List.all_eq_true, Bool.not_eq_true'] at h
   -- every read variable
@@ -247,8 +249,8 @@ theorem C13_deviation_partial (s : Stmt) (h : CopyoutNotRead s) (σ γ : Store) 
       · exact hd0 l' hl'
       · exact absurd hl'.1 (by simp)
     · intro l'; exact Or.inr ⟨rfl, rfl⟩
-  have hs := (chk_sim s [] D d0 σ hD hkok h0).1
-  have hE : (execACC (clauses s) s σ γ) l = (hostFinal (clauses s) (arrays s) σ (exec s d0)) l := rfl
+  have hs := (chk_sim (fuel := fuel) s [] D d0 σ hD hkok h0).1
+  have hE : (execACC fuel (clauses s) s σ γ) l = (hostFinal (clauses s) (arrays s) σ (rexec fuel s d0)) l := rfl
   rw [hE]
   simp only [hostFinal, Bool.or_eq_true, List.contains_iff_mem]
   by_cases hout : l.1 ∈ (clauses s).cout
@@ -265,7 +267,7 @@ theorem C13_deviation_partial (s : Stmt) (h : CopyoutNotRead s) (σ γ : Store) 
       simp only [d0, devInit, Bool.or_eq_true, List.contains_iff_mem]
       rw [if_neg hnot, if_pos (Or.inl hout)]
   · left
-    have hag : (exec s d0) l = (exec s σ) l := hs.agree l (Or.inl hout)
+    have hag : (rexec fuel s d0) l = (rexec fuel s σ) l := hs.agree l (Or.inl hout)
     split
     · exact hag
     · rename_i h1
@@ -282,9 +284,9 @@ theorem C13_deviation_partial (s : Stmt) (h : CopyoutNotRead s) (σ γ : Store) 
 /-- **full coverage suffices, partial**: if the `copyout` arrays are never read and the region
 changes every element of them inside the declared extents `Ext`, the host agrees with host
 execution on all declared elements — the situation `copyout` is meant for -/
-theorem C13_covered_partial (s : Stmt) (h : CopyoutNotRead s) (σ γ : Store) (Ext : Loc → Prop)
-    (hcov : ∀ l, l.1 ∈ (clauses s).cout → Ext l → (exec s σ) l ≠ σ l) :
-    ∀ l, Ext l → (execACC (clauses s) s σ γ) l = (exec s σ) l := by
+theorem C13_covered_partial (s : RStmt) (h : CopyoutNotRead s) (σ γ : Store) (Ext : Loc → Prop)
+    (hcov : ∀ l, l.1 ∈ (clauses s).cout → Ext l → (rexec fuel s σ) l ≠ σ l) :
+    ∀ l, Ext l → (execACC fuel (clauses s) s σ γ) l = (rexec fuel s σ) l := by
   intro l hl
   rcases C13_deviation_partial s h σ γ l with h1 | ⟨hout, _, h3⟩
   · exact h1
@@ -293,7 +295,7 @@ theorem C13_covered_partial (s : Stmt) (h : CopyoutNotRead s) (σ γ : Store) (E
 /-! ## The defect: partially written arrays are put in `copyout` -/
 
 /-- `a(1) = 5 ; b(2) = a(2)` with `a = 0`, `b = 1` -/
-def wit : Stmt := .seq (.store1 0 (.lit 1) (.lit 5)) (.store1 1 (.lit 2) (.idx1 0 (.lit 2)))
+def wit : RStmt := .seq (.store1 0 (.lit 1) (.lit 5)) (.store1 1 (.lit 2) (.idx1 0 (.lit 2)))
 def σw : Store := storeOf []
 /-- device memory that happens to hold 7 at `a(2)` -/
 def γw : Store := storeOf [((0, 2, 0), 7)]
@@ -306,22 +308,22 @@ example : accDataTrans false [.stmt (.store1 0 (.lit 1) (.lit 5)), .stmt (.store
 receives it -/
 theorem partial_copyout_counterexample : ¬ C13_statement := by
   intro h
-  have h1 := h wit σw γw 1 (by decide) 2 0
+  have h1 := h 0 wit σw γw 1 (by decide) 2 0
   revert h1
   decide
 
 /-- `a(1) = 5` alone gets `copyout(a)`: nothing undefined is read, but the host's `a(2)` is
 overwritten with the device's undefined `a(2)` -/
-def wit2 : Stmt := .store1 0 (.lit 1) (.lit 5)
+def wit2 : RStmt := .store1 0 (.lit 1) (.lit 5)
 
 example : clauses wit2 = ⟨[], [0], []⟩ := by decide
 example : CopyoutNotRead wit2 ∧ ¬ FullyWrittenOrRead wit2 := by decide
 
 theorem write_only_copyout_counterexample :
-    ¬ (∀ σ γ : Store, ∀ x ∈ arrays wit2, ∀ i j,
-        (execACC (clauses wit2) wit2 σ γ) (x, i, j) = (exec wit2 σ) (x, i, j)) := by
+    ¬ (∀ (fuel : Nat) (σ γ : Store), ∀ x ∈ arrays wit2, ∀ i j,
+        (execACC fuel (clauses wit2) wit2 σ γ) (x, i, j) = (rexec fuel wit2 σ) (x, i, j)) := by
   intro h
-  have h1 := h σw γw 0 (by decide) 2 0
+  have h1 := h 0 σw γw 0 (by decide) 2 0
   revert h1
   decide
 
@@ -329,7 +331,7 @@ theorem write_only_copyout_counterexample :
 
 /-- `do i = 1, n: a(i) = a(i) + b(i) * t; enddo; if (b(1) > 0) then c(2) = c(2) + 1`
 (a=0 b=1 c=2 i=3 n=4 t=5) -/
-def good : Stmt :=
+def good : RStmt :=
   .seq (.loop 3 (.lit 1) (.var 4) (.lit 1)
          (.store1 0 (.var 3) (.bin .add (.idx1 0 (.var 3)) (.bin .mul (.idx1 1 (.var 3)) (.var 5)))))
        (.ite (.bin .gt (.idx1 1 (.lit 1)) (.lit 0))
@@ -342,13 +344,25 @@ example : ¬ (clauses good).cin.contains 5 ∧ ¬ (clauses good).cpy.contains 3 
 example : ¬ CopyoutNotRead wit := by decide
 /-- `do i = 1, 3: a(i) = b(i) + 1` with extent a(1:3): `copyin(b) copyout(a)`, every declared
 element of `a` is changed (hypothesis of `C13_covered_partial`) -/
-def cover : Stmt :=
+def cover : RStmt :=
   .loop 2 (.lit 1) (.lit 3) (.lit 1) (.store1 0 (.var 2) (.bin .add (.idx1 1 (.var 2)) (.lit 1)))
 example : clauses cover = ⟨[1], [0], []⟩ ∧ CopyoutNotRead cover := by decide
-example : ∀ i : Fin 3, (exec cover (storeOf [])) (0, (i.val : Int) + 1, 0)
+example : ∀ i : Fin 3, (rexec 0 cover (storeOf [])) (0, (i.val : Int) + 1, 0)
     ≠ (storeOf []) (0, (i.val : Int) + 1, 0) := by decide
 example : accDataTrans true [.stmt good] = none := by decide
 example : accDataTrans false [.stmt good, .excluded] = none := by decide
 example : accDataTrans false [] = none := by decide
+
+/-- `do while (r(1) > 0 .and. w > 0): r(1) = 0; w = w - 1` (r=0 w=1): the condition is the first
+access, so `r` is first read and gets `copy`, not `copyout` -/
+def wloop : RStmt :=
+  .whileDo (.bin .and (.bin .gt (.idx1 0 (.lit 1)) (.lit 0)) (.bin .gt (.var 1) (.lit 0)))
+    (.seq (.store1 0 (.lit 1) (.lit 0)) (.assign 1 (.bin .sub (.var 1) (.lit 1))))
+
+example : clauses wloop = ⟨[], [], [0]⟩ ∧ FullyWrittenOrRead wloop := by decide
+/-- with `copyout(r)` instead (body recorded before the condition) the loop would test junk:
+here the device holds 0 at `r(1)`, the loop is skipped and `w` stays 1, the host run gives 0 -/
+example : (execACC 5 ⟨[], [0], []⟩ wloop (storeOf [((0, 1, 0), 3), ((1, 0, 0), 1)]) (storeOf [])) (1, 0, 0) = 1
+    ∧ (rexec 5 wloop (storeOf [((0, 1, 0), 3), ((1, 0, 0), 1)])) (1, 0, 0) = 0 := by decide
 
 end C13
